@@ -16,6 +16,8 @@ pub enum CostSpec {
     Curve { cum: Vec<u64>, extrapolating: bool },
     /// `wcet::Curve::from_trace(costs, max_n)`
     FromTrace { costs: Vec<u64>, max_n: usize, extrapolating: bool },
+    /// `vals.collect::<wcet::Curve>()` (FromIterator: makes the cumulative vector monotone)
+    FromIter { vals: Vec<u64> },
 }
 
 pub type Cm = Rc<dyn JobCostModel>;
@@ -41,6 +43,7 @@ impl CostSpec {
                     Rc::new(c)
                 }
             }
+            CostSpec::FromIter { vals } => Rc::new(vals.iter().map(|x| s(*x)).collect::<wcet::Curve>()),
         }
     }
 
@@ -63,6 +66,7 @@ impl CostSpec {
             CostSpec::Multiframe { costs } => costs.iter().copied().max().unwrap_or(0),
             CostSpec::Curve { cum, .. } => cum.first().copied().unwrap_or(0),
             CostSpec::FromTrace { costs, .. } => costs.iter().copied().max().unwrap_or(0),
+            CostSpec::FromIter { vals } => vals.first().copied().unwrap_or(0),
         }
     }
 
@@ -85,6 +89,14 @@ impl CostSpec {
                 let x = (n / l) as u64;
                 let y = n % l;
                 Some(x * cum[l - 1] + if y > 0 { cum[y - 1] } else { 0 })
+            }
+            CostSpec::FromIter { vals } => {
+                // the running maximum of the input, then as a plain curve
+                let mut cum = vals.clone();
+                for i in 1..cum.len() {
+                    cum[i] = cum[i].max(cum[i - 1]);
+                }
+                CostSpec::Curve { cum, extrapolating: false }.ref_cost(n)
             }
             _ => None,
         }
